@@ -16,7 +16,10 @@ ASSUMPTIONS = ["eq on number objects is not modelled (the model compares numbers
                "strings, lists and nil/t only"]
 
 VALS = ["1", "2", "1.0", "1.5", "-0.0", "0.0", "0", '"a"', '"b"', '""', "a", "b", ":k", "nil", "t", "(1 2)", "(1 . 2)", "(a (b \"a\") . c)",
-        "(1 (2 (3)))", "(1.0 2)", "(nil)", "()", '("a")', "((a . 1) (b . 2))", "9223372036854775807", "(1 2 3)", "(1 2 . 3)"]
+        "(1 (2 (3)))", "(1.0 2)", "(nil)", "()", '("a")', "((a . 1) (b . 2))", "9223372036854775807", "(1 2 3)", "(1 2 . 3)",
+        # dotted tails of every kind (compared structurally, like elements)
+        '(1 . "a")', '(a b . "b")', "(1 . 2.0)", "(1 . 2)", "(1 . 0.0)", "(1 . -0.0)", '("a" . "a")', "(1 . 1.5)", "((1 . 1.0) . 1)",
+        '((x . "a") (y . 1.0))', "(1 . :k)", "(1 . t)", "((1 . (2 . \"a\")))"]
 
 def isnum(v): return v[0].isdigit() or v[0] == '-'
 
@@ -26,11 +29,15 @@ def generate(tier, seed):
     pairs = list(itertools.product(VALS, repeat=2))
     if tier == "quick": pairs = rng.sample(pairs, min(len(pairs), 1000))
     for a, b in pairs:
-        how = rng.choice(["one-text", "two-texts", "constructed"])
+        how = rng.choice(["one-text", "two-texts", "constructed", "rebuilt"])
         if how == "one-text":
             setup = ["EVAL (setq va '%s) (setq vb '%s)" % (a, b)]
         elif how == "two-texts":
             setup = ["EVAL (setq va '%s)" % a, "EVAL (setq vb '%s)" % b]
+        elif how == "rebuilt":
+            # both values rebuilt at run time, strings through concat, so that no two parts are the same object
+            setup = ["EVAL (defun rb (v) (cond ((consp v) (cons (rb (car v)) (rb (cdr v)))) ((stringp v) (concat v \"\")) (t v)))",
+                     "EVAL (setq va (rb '%s))" % a, "EVAL (setq vb (rb '%s))" % b]
         else:
             setup = ["EVAL (setq va (car (list '%s))) (setq vb (cdr (cons 0 '%s)))" % (a, b)]
         q = "(list (equal va vb) (equal vb va) (equal va va) (equal vb vb)"
